@@ -46,12 +46,12 @@ def unit_flavours(prop=None):
     return res
 
 
-def build_one(uname, fl, vacuity=False):
+def build_one(uname, fl, vacuity=False, bare=None):
     u = UNITS["units"][uname]
     tpl = os.path.join(ROOT, "contracts", u["template"])
-    g = gen.generate(tpl, fl, repo=REPO, vacuity=vacuity)
+    g = gen.generate(tpl, fl, repo=REPO, vacuity=vacuity, bare=bare)
     os.makedirs(BUILD, exist_ok=True)
-    path = os.path.join(BUILD, "%s_%s%s.rs" % (uname, fl, "_vac" if vacuity else ""))
+    path = os.path.join(BUILD, "%s_%s%s%s.rs" % (uname, fl, "_vac" if vacuity else "", "_bare" if bare else ""))
     open(path, "w").write("\n".join(g.lines) + "\n")
     return g, path
 
@@ -84,6 +84,24 @@ def verify_unit(uname, fl, seed=None, rlimit=None, vacuity=True):
         r = f1.result()
         rv = f2.result() if f2 else None
     out.update(gen=g, path=path, res=r, resv=rv)
+    if r["fatal"]:
+        # compile error: if extracted functions changed w.r.t. the baseline, their proof annotations may be
+        # stale (they mention program variables that no longer exist). Retry with those functions `bare`.
+        base = baseline()
+        key = "%s/%s" % (uname, fl)
+        changed = set(f["id"] for f in g.fns if base["functions"].get("%s/%s" % (key, f["id"])) not in (None, f["hash"]))
+        if changed:
+            try:
+                g2, path2 = build_one(uname, fl, bare=changed)
+                r2 = run.run_verus(path2, rlimit, seed)
+                if not r2["fatal"]:
+                    g, path, r = g2, path2, r2
+                    out.update(gen=g, path=path, res=r, bare=sorted(changed))
+                    vacuity = False
+                    rv = None
+                    out["resv"] = None
+            except ExtractError:
+                pass
     if r["fatal"]:
         out["error"] = "verus: %s\n%s" % (r["fatal"], "\n".join(d["rendered"] for d in r["diags"][:8]))
         return out
@@ -269,7 +287,8 @@ def decide(prop, tier, seed):
                 undecided.append("%s/%s: refuted although no extracted text of the unit differs from the baseline (%s)" % (key, fid, clause))
                 continue
             violations.append(dict(obligation="%s/%s" % (key, fid), clause=clause, fn=f, diags=o["diags"],
-                                   changed=changed_in_unit, path=u["path"], unit=uname, flavour=fl))
+                                   changed=changed_in_unit, path=u["path"], unit=uname, flavour=fl,
+                                   hints_lost=(f or {}).get("hints_lost") or []))
         # thorough: stability
         for s, rr in extra_runs:
             uu = rr.get((uname, fl))
@@ -309,6 +328,7 @@ def write_replay(prop, v):
                    source=f and "%s:%d-%d" % (f["file"], f["line_start"], f["line_end"]),
                    text_hash=f and f["hash"], functions_changed_vs_baseline=v["changed"],
                    generated_text=gen_text, verifier_output=[d_["rendered"] for d_ in v["diags"]],
+                   proof_hints_that_could_not_be_placed=v.get("hints_lost", []),
                    counterexample=witness or "no-failing-input-found (Verus gives no model; see DESIGN §3.8)",
                    replay_cmd="python3 /verif/vx/check.py --unit %s --flavour %s --function '%s'" % (v["unit"], v["flavour"], v["obligation"].split("/", 2)[2])),
               open(path, "w"), indent=1)
@@ -407,8 +427,10 @@ def main():
     rc = 0
     for v in dec["violations"]:
         path, witness = write_replay(a.property, v)
-        print("VIOLATION property=%s replay=%s obligation=%s clause=[%s] %s" % (
-            a.property, path, v["obligation"], v["clause"], "failing-input-attached" if witness else "no-failing-input-found"))
+        print("VIOLATION property=%s replay=%s obligation=%s clause=[%s]%s %s" % (
+            a.property, path, v["obligation"], v["clause"],
+            " proof-hints-lost=%d" % len(v["hints_lost"]) if v.get("hints_lost") else "",
+            "failing-input-attached" if witness else "no-failing-input-found"))
         rc = 1
     if rc == 0 and dec["undecided"]:
         rc = 2
